@@ -21,6 +21,7 @@ from xmlschema.translation import gettext as _
 from .exceptions import XMLSchemaValidationError
 
 INTEGER_PATTERN = re.compile(r'[+-]?[0-9]+')
+WHITESPACE_PATTERN = re.compile(r'\s')
 
 if TYPE_CHECKING:
     from xmlschema.validators import XsdAnnotation, XsdComponent  # noqa: F401
@@ -277,16 +278,23 @@ def boolean_to_python(value: str) -> bool:
 
 def integer_to_python(value: Union[SupportsInt, str]) -> int:
     result = int(value)
-    if isinstance(value, str) and INTEGER_PATTERN.fullmatch(value.strip()) is None:
-        # int() accepts also underscores and non-ASCII digits
+    if isinstance(value, str) and INTEGER_PATTERN.fullmatch(value.strip('\t\n\r ')) is None:
+        # int() accepts also underscores, non-ASCII digits and Unicode spaces
         raise XMLSchemaValueError(_('{!r} is not an xs:integer value').format(value))
     return result
 
 
 def decimal_to_python(value: Union[Decimal, int, float, str]) -> Decimal:
-    if isinstance(value, str) and ' ' in value.strip():
+    if isinstance(value, str) and WHITESPACE_PATTERN.search(value.strip('\t\n\r ')) is not None:
         raise XMLSchemaValueError(_('{!r} is not an xs:decimal value').format(value))
     return datatypes.DecimalProxy(value)
+
+
+def python_to_decimal(value: Union[Decimal, int, float, str]) -> str:
+    if isinstance(value, float):
+        value = Decimal(str(value))
+    # str(Decimal('1E-8')) is not in the lexical space of xs:decimal
+    return format(value, 'f') if isinstance(value, Decimal) else str(value)
 
 
 def python_to_boolean(value: object) -> str:
